@@ -10,7 +10,7 @@ compareDocumentPosition) compared with the model.  States are merged on a canoni
 + full dump of the implementation's pointers (children, parentNode incl. stale ones, ownerDocument,
 attribute maps, whether the child list has been materialised).
 """
-import itertools, operator, resource
+import contextlib, itertools, operator, resource, signal
 from vp import core
 from vp.refs import dom_tree_c06 as M
 from vp.refs.dom_tree_c06 import D, E, T, F, NA
@@ -41,8 +41,25 @@ ASSUMPTIONS = [
 ]
 
 TAGS = ('p', 'q')
-TLIMIT = 2.0          # seconds per real call group; an endless parent walk also grows a list
+TLIMIT = 2.0          # CPU seconds per real call group; an endless parent walk also grows a list
 MEMLIMIT = 6 << 30    # address-space cap of every worker (a blow-up must fail fast)
+
+
+def _vtalarm(signum, frame):
+    raise core.Timeout('case exceeded its CPU time limit')
+
+
+@contextlib.contextmanager
+def cpu_limit(seconds):
+    """Like core.time_limit but counts the CPU time of this process (ITIMER_VIRTUAL): an endless loop is still
+    caught, while a worker that is merely descheduled on a loaded machine is not reported as a timeout."""
+    old = signal.signal(signal.SIGVTALRM, _vtalarm)
+    signal.setitimer(signal.ITIMER_VIRTUAL, seconds)
+    try:
+        yield
+    finally:
+        signal.setitimer(signal.ITIMER_VIRTUAL, 0)
+        signal.signal(signal.SIGVTALRM, old)
 
 
 def _rlimit():
@@ -431,7 +448,7 @@ def judge_transition(scn, history, r0=None):
     if r0 is None:
         r0 = model(scn, prefix)
     im = build(scn, prefix)
-    with core.time_limit(TLIMIT):
+    with cpu_limit(TLIMIT):
         try:
             res_i = im.apply(ev)
         except core.Timeout:
@@ -600,7 +617,7 @@ def judge_state(scn, history, r=None, demo=False):
     im = build(scn, history)
     q = view_queries(r)
     par = im.observe()['par']
-    with core.time_limit(TLIMIT):
+    with cpu_limit(TLIMIT):
         try:
             vi = impl_views(im, q, par)
         except core.Timeout:
@@ -625,11 +642,11 @@ def judge_state(scn, history, r=None, demo=False):
             if x != 'cycle' or len(shown) >= 4:
                 continue
             try:
-                with core.time_limit(0.3):
+                with cpu_limit(0.3):
                     got1 = im.nodes[a].compareDocumentPosition(im.nodes[b])
                 shown.append('%d.compareDocumentPosition(%d) returned %r (tree: %r)' % (a, b, got1, want))
             except core.Timeout:
-                shown.append('%d.compareDocumentPosition(%d) did not return within 0.3 s (tree: %r)' % (a, b, want))
+                shown.append('%d.compareDocumentPosition(%d) did not return within 0.3 CPU-s (tree: %r)' % (a, b, want))
             except MemoryError:
                 shown.append('%d.compareDocumentPosition(%d) ran out of memory' % (a, b))
         note = '; real calls: ' + '; '.join(shown)
@@ -721,7 +738,7 @@ def expand_chunk(item):
             v = j['verdict']
             if v == 'ok':
                 try:
-                    with core.time_limit(TLIMIT):
+                    with cpu_limit(TLIMIT):
                         why = post_checks(scn, ev, j['impl'], j['model'])
                 except core.Timeout:
                     why = 'second normalize() did not return within %.0f s' % TLIMIT
